@@ -102,11 +102,21 @@ pub struct Quirks {
     /// whenever that unfiltered set is non-empty; otherwise the outer row
     /// qualifies iff no row passing the correlated conjuncts has `k = x`.
     pub not_in_null_check_ignores_correlation: bool,
+    /// The merged column of `JOIN .. USING (k)` is the *left* input's `k`
+    /// (instead of COALESCE(left.k, right.k)): NULL on right-only rows of
+    /// RIGHT / FULL joins.
+    pub using_column_is_left: bool,
+    /// `x [NOT] IN (subquery)` anywhere but as a whole top-level conjunct of
+    /// WHERE is two-valued (mark join): TRUE iff some row equals `x`, else
+    /// FALSE — never NULL.
+    pub nested_in_subquery_two_valued: bool,
 }
 
 pub struct Interp<'d> {
     db: &'d Database,
     quirks: Quirks,
+    /// set while evaluating a WHERE conjunct that is not itself an IN-subquery (quirk mode only)
+    two_valued_in: std::cell::Cell<bool>,
     flags: RefCell<Flags>,
     /// CTE bindings, innermost last
     ctes: RefCell<Vec<(String, Rel)>>,
@@ -125,7 +135,7 @@ pub fn evaluate(db: &Database, q: &Query) -> RefOutcome {
 
 /// [`evaluate`] under alternative semantics (see [`Quirks`]).
 pub fn evaluate_with(db: &Database, q: &Query, quirks: Quirks) -> RefOutcome {
-    let it = Interp { db, quirks, flags: RefCell::new(Flags::default()), ctes: RefCell::new(vec![]), steps: RefCell::new(0) };
+    let it = Interp { db, quirks, two_valued_in: std::cell::Cell::new(false), flags: RefCell::new(Flags::default()), ctes: RefCell::new(vec![]), steps: RefCell::new(0) };
     let sorted = it.eval_query_sorted(q, None);
     let f = it.flags.borrow();
     if let Some(u) = &f.unsupported {
@@ -145,6 +155,21 @@ pub fn evaluate_with(db: &Database, q: &Query, quirks: Quirks) -> RefOutcome {
         offset: q.offset.unwrap_or(0) as usize,
         limit: q.limit.map(|l| l as usize),
     })
+}
+
+/// Evaluate a scalar expression on one row of table `table` (columns visible
+/// both unqualified and qualified by the table name).  `Err` if evaluation
+/// touched a may-fail / ambiguous / unsupported construct.
+pub fn eval_on_row(db: &Database, table: &str, row: &Row, e: &Expr) -> Result<Value, String> {
+    let t = db.table(table).ok_or_else(|| format!("unknown table {table}"))?;
+    let cols: Vec<ColMeta> = t.cols.iter().map(|(n, _)| ColMeta { rel: Some(table.to_string()), name: n.clone() }).collect();
+    let it = Interp { db, quirks: Quirks::default(), two_valued_in: std::cell::Cell::new(false), flags: RefCell::new(Flags::default()), ctes: RefCell::new(vec![]), steps: RefCell::new(0) };
+    let v = it.eval(e, &Env::plain(&cols, row, None));
+    let f = it.flags.borrow();
+    if let Some(u) = f.unsupported.as_ref().or(f.may_fail.as_ref()).or(f.ambiguous.as_ref()) {
+        return Err(u.clone());
+    }
+    Ok(v)
 }
 
 /// Convenience: the rows of the top-level window when the answer is unique
@@ -628,7 +653,7 @@ impl<'d> Interp<'d> {
                 .map(|row| {
                     let mut o = vec![];
                     for (a, b) in &using_pairs {
-                        o.push(if row[*a].is_null() { row[nl + *b].clone() } else { row[*a].clone() });
+                        o.push(if row[*a].is_null() && !self.quirks.using_column_is_left { row[nl + *b].clone() } else { row[*a].clone() });
                     }
                     for i in 0..nl {
                         if !using_pairs.iter().any(|(a, _)| *a == i) {
@@ -723,6 +748,34 @@ impl<'d> Interp<'d> {
         let names: Vec<String> = items.iter().map(Self::item_name).collect();
         // WHERE
         let rows: Vec<Row> = match &sel.where_ {
+            Some(p) if self.quirks.nested_in_subquery_two_valued => {
+                fn conj<'a>(e: &'a Expr, out: &mut Vec<&'a Expr>) {
+                    match e {
+                        Expr::Bin(BinOp::And, l, r) => {
+                            conj(l, out);
+                            conj(r, out);
+                        }
+                        x => out.push(x),
+                    }
+                }
+                let mut cs = vec![];
+                conj(p, &mut cs);
+                input
+                    .rows
+                    .iter()
+                    .filter(|r| {
+                        let env = Env::plain(&input.cols, r, outer);
+                        cs.iter().all(|c| {
+                            let nested = !matches!(c, Expr::InSubquery { .. });
+                            let saved = self.two_valued_in.replace(nested);
+                            let v = truth(&self.eval(c, &env)) == Some(true);
+                            self.two_valued_in.set(saved);
+                            v
+                        })
+                    })
+                    .cloned()
+                    .collect()
+            }
             Some(p) => input.rows.iter().filter(|r| truth(&self.eval(p, &Env::plain(&input.cols, r, outer))) == Some(true)).cloned().collect(),
             None => input.rows.clone(),
         };
